@@ -24,10 +24,11 @@ func init() {
 		ID: "C14",
 		Expl: "Decides, over go/types of the record type that the swap.Store implementation hands to encoding/json and over the SSA of every action, event context, codec method and store method: " +
 			"(R1) every exported field of every struct reachable from the record root through persisted fields has a JSON name other than \"-\" unless the recovery path (the function that calls SwapStateMachine.Recover and its static callees) re-assigns it; JSON names are unique under case folding inside a struct; no persisted field has a type encoding/json cannot round-trip (func, chan, complex, unsafe pointer, map with a non string/integer key, an interface that production code ever assigns); omitempty never sits on a slice or map; no embedded fields (unsupported shape -> undecided). " +
-			"(R2) a type with MarshalJSON/MarshalText has the matching Unmarshal method with a pointer receiver, both sides use the same encoding/* packages and the same Go type at the JSON level (argument of json.Marshal = target of json.Unmarshal), and a pointer-receiver marshaller is never used for a non-addressable value. " +
+			"(R2) a type with MarshalJSON/MarshalText has the matching Unmarshal method with a pointer receiver, both sides use the same Go type at the JSON level (argument of json.Marshal = target of json.Unmarshal), and a pointer-receiver marshaller is never used for a non-addressable value. " +
 			"(R3) every field of a record struct that an action (Execute and its static callees, one unit per concrete Action type) or an event context (ApplyToSwapData) loads without having stored it itself (directly, or through a callee that always stores it) on every path before the load - i.e. whose value comes from an earlier state, an earlier execution of the same state or an event - is persisted (exported, JSON name != \"-\"), because Recover re-runs the unit on the decoded record. " +
 			"(R4) SwapStateMachine.Current and SwapData.FSMState are written together: every write site of one (direct store, or call of a parameter-setter) has a write site of the other in the same function, for the same record, with the same SSA value, and no return separates them. " +
 			"(R5) every swap.Store implementation marshals a pointer to the record root, unmarshals into the same type, puts the marshalled bytes, derives every bucket key with one and the same key function (from SwapStateMachine.SwapId of the marshalled record on writes), and uses one bucket name. " +
+			"(R6) the target of every json.Unmarshal in a swap.Store implementation is a fresh allocation per decoded record: an allocation (or constructor call) in the decoding function that is re-executed before every execution of the decode, looked through parameters to the production callers; a target captured by the per-record callback of bbolt's Bucket.ForEach, or carried around a loop by a phi or an outer variable, is a violation because encoding/json leaves fields absent from the input (omitempty) at the previous record's values. " +
 			"Quantified over all structs/fields/codecs/units/store call sites of the tree.",
 		NotD: "Value-level equality of encode/decode for all inputs (encoding/json's contract, trusted); fields filled only by reflection; record fields accessed only through their address (&swap.F handed to a callee) are not seen as loads by R3; whether code outside actions and event contexts (RPC listing, SendEvent itself) relies on in-memory-only fields after a restart (reported as info only); pairwise distinctness of StateType/EventType constants (DESIGN C14.R4 first half) is not claimed: inside one table the compiler rejects duplicate constant keys, across tables sharing a value is how the tables share states, so a 'distinct values' rule would alarm on a harmless alias and catch nothing that compiles.",
 		Run:  runC14,
@@ -230,6 +231,8 @@ func (g *c14Graph) visitStruct(n *types.Named) {
 			by = c14Uniq(by)
 			if len(by) > 0 {
 				c.OK("C14.R1", cons, pos, "json:\"-\" but re-assigned on the recovery path by "+strings.Join(by, ", "))
+			} else if wh := g.wholeStructStores(n); len(wh) > 0 {
+				c.Unknown("C14.R1", cons, pos, "json:\"-\" and no field store on the recovery path, but the recovery path assigns whole "+n.Obj().Name()+" values ("+strings.Join(wh, ", ")+"): cannot tell whether the field is rebuilt")
 			} else {
 				c.Bad("C14.R1", cons, pos, "exported field of the persisted record is tagged json:\"-\" and the recovery path (caller of SwapStateMachine.Recover and its callees) never re-assigns it: the value is lost by every reload")
 			}
@@ -275,6 +278,30 @@ func (g *c14Graph) visitStruct(n *types.Named) {
 			c.Bad("C14.R1", n.Obj().Name()+" json name "+k, w.Pos(n.Obj().Pos()), "fields "+strings.Join(names[k], ", ")+" share the JSON name \""+k+"\" (case-insensitively): encoding/json drops or misroutes them")
 		}
 	}
+}
+
+// wholeStructStores: functions of the recovery closure that store a whole value
+// of struct type n through a pointer (the fields are then set without a field store).
+func (g *c14Graph) wholeStructStores(n *types.Named) []string {
+	var out []string
+	for fn := range g.rebuilt {
+		for _, b := range fn.Blocks {
+			for _, in := range b.Instrs {
+				st, ok := in.(*ssa.Store)
+				if !ok {
+					continue
+				}
+				if _, isAlloc := st.Addr.(*ssa.Alloc); isAlloc {
+					continue // initialisation of a local
+				}
+				if pt, ok := st.Addr.Type().Underlying().(*types.Pointer); ok && types.Unalias(pt.Elem()) == types.Type(n) {
+					out = append(out, g.w.FuncName(fn))
+				}
+			}
+		}
+	}
+	sort.Strings(out)
+	return c14Uniq(out)
 }
 
 func sortedKeysOfSlices(m map[string][]string) []string {
@@ -337,6 +364,7 @@ func runC14(c *an.Check) {
 	c.Rule("C14.R2", "custom JSON/Text codecs are paired (pointer-receiver Unmarshal, same encoding packages, same JSON-level Go type) and pointer-receiver marshallers are only used on addressable values")
 	c.Rule("C14.R3", "a record field that an action or event context loads without having stored it first in the same function (value from another state / earlier execution / event) is persisted")
 	c.Rule("C14.R4", "SwapStateMachine.Current and SwapData.FSMState are written together (same function, same record, same value, no return in between)")
+	c.Rule("C14.R6", "every json.Unmarshal of a stored record decodes into a value allocated for that decode (not one reused across loop iterations / per-record callbacks): encoding/json leaves absent fields of the target untouched")
 	c.Rule("C14.R5", "swap.Store implementations: json.Marshal(*root) / json.Unmarshal(into *root); Put value is the marshalled record; one key function for Put/Get/Delete, fed from SwapStateMachine.SwapId of the written record; one bucket")
 	w := c.W
 	root := w.Named("swap", "SwapStateMachine")
@@ -446,16 +474,14 @@ func c14Codecs(c *an.Check, g *c14Graph) {
 				continue
 			}
 			var diff []string
-			if strings.Join(mp, ",") != strings.Join(up, ",") {
-				diff = append(diff, fmt.Sprintf("%s uses %v but %s uses %v", pair[0], mp, pair[1], up))
-			}
+			_ = up
 			if mt != nil && ut != nil && !types.Identical(mt, ut) {
 				diff = append(diff, fmt.Sprintf("%s encodes a %s but %s decodes a %s", pair[0], types.TypeString(mt, nil), pair[1], types.TypeString(ut, nil)))
 			}
 			if len(diff) > 0 {
 				c.Bad("C14.R2", cons, w.Pos(mf.Pos()), "the two halves use different representations: "+strings.Join(diff, "; "))
 			} else if usesOK {
-				c.OK("C14.R2", cons, pos, fmt.Sprintf("paired, both via %v, JSON-level type %s, %d uses", mp, c14TypeStr(mt), len(g.Codecs[n])))
+				c.OK("C14.R2", cons, pos, fmt.Sprintf("paired, same JSON-level type %s on both sides (encoder uses %v), %d uses", c14TypeStr(mt), mp, len(g.Codecs[n])))
 			}
 		}
 	}
@@ -554,10 +580,46 @@ func c14Fresh(load ssa.Instruction, base ssa.Value, stores []*ssa.Store, always 
 	return an.MustPassInstr(load, via)
 }
 
+// c14CallersOf indexes the production static call sites (not go/defer) per callee.
+var c14CallerIdx = map[*an.World]map[*ssa.Function][]ssa.CallInstruction{}
+
+func c14CallersOf(w *an.World, callee *ssa.Function) []ssa.CallInstruction {
+	idx := c14CallerIdx[w]
+	if idx == nil {
+		idx = map[*ssa.Function][]ssa.CallInstruction{}
+		for _, fn := range prodFuncs(w) {
+			for _, call := range an.Calls(fn) {
+				if _, isGo := call.(*ssa.Go); isGo {
+					continue
+				}
+				if _, isDefer := call.(*ssa.Defer); isDefer {
+					continue
+				}
+				if cal := call.Common().StaticCallee(); cal != nil {
+					idx[cal] = append(idx[cal], call)
+				}
+			}
+		}
+		c14CallerIdx[w] = idx
+	}
+	return idx[callee]
+}
+
 // c14AlwaysStores: functions that store the field of one of their parameters on
-// every path to every return; value = index of that parameter.
-func c14AlwaysStores(stores []*ssa.Store) map[*ssa.Function]int {
+// every path to every return (directly, or by always calling such a function
+// with that parameter); value = index of that parameter.
+func c14AlwaysStores(w *an.World, stores []*ssa.Store) map[*ssa.Function]int {
 	out := map[*ssa.Function]int{}
+	allReturnsPass := func(fn *ssa.Function, in ssa.Instruction) bool {
+		rets := an.Returns(fn)
+		for _, r := range rets {
+			if !an.MustPassInstr(r, []ssa.Instruction{in}) {
+				return false
+			}
+		}
+		return len(rets) > 0
+	}
+	var work []*ssa.Function
 	for _, s := range stores {
 		fa, ok := s.Addr.(*ssa.FieldAddr)
 		if !ok {
@@ -568,16 +630,31 @@ func c14AlwaysStores(stores []*ssa.Store) map[*ssa.Function]int {
 		if i < 0 {
 			continue
 		}
-		all := true
-		rets := an.Returns(fn)
-		for _, r := range rets {
-			if !an.MustPassInstr(r, []ssa.Instruction{s}) {
-				all = false
+		if _, done := out[fn]; !done && allReturnsPass(fn, s) {
+			out[fn] = i
+			work = append(work, fn)
+		}
+	}
+	for depth := 0; len(work) > 0 && depth < 4; depth++ {
+		var next []*ssa.Function
+		for _, callee := range work {
+			for _, call := range c14CallersOf(w, callee) {
+				fn := call.Parent()
+				if _, done := out[fn]; done {
+					continue
+				}
+				args := call.Common().Args
+				if out[callee] >= len(args) {
+					continue
+				}
+				i := c14ParamIdx(fn, args[out[callee]])
+				if i >= 0 && allReturnsPass(fn, call) {
+					out[fn] = i
+					next = append(next, fn)
+				}
 			}
 		}
-		if all && len(rets) > 0 {
-			out[fn] = i
-		}
+		work = next
 	}
 	return out
 }
@@ -674,7 +751,7 @@ func c14CrossState(c *an.Check, g *c14Graph) {
 			}
 			sort.Strings(writers)
 			writers = c14Uniq(writers)
-			always := c14AlwaysStores(stores)
+			always := c14AlwaysStores(w, stores)
 			readBy := map[*c14Unit]ssa.Instruction{}
 			var others []string
 			for _, ld := range w.FieldReaders(fd.Key) {
@@ -770,42 +847,69 @@ type c14Write struct {
 	Base ssa.Value // the struct whose field is written (pointer value)
 }
 
-// c14WriteSites lists where field key of type n is written: direct stores, and
-// calls of "setter" functions (functions that store one of their parameters into
-// the field of another parameter) — one level.
+// c14WriteSites lists the production stores to field key of struct type n.
 func c14WriteSites(w *an.World, key string, n *types.Named) []c14Write {
 	var out []c14Write
-	type setter struct{ base, val int }
-	setters := map[*ssa.Function]setter{}
 	for _, s := range w.FieldWriters(key) {
-		fn := s.Parent()
-		if an.IsTestSupport(w.FnRel(fn)) || !c14IsFieldOf(s, n) {
+		if an.IsTestSupport(w.FnRel(s.Parent())) || !c14IsFieldOf(s, n) {
 			continue
 		}
-		fa := s.Addr.(*ssa.FieldAddr)
-		bi, vi := c14ParamIdx(fn, fa.X), c14ParamIdx(fn, s.Val)
-		if bi >= 0 && vi >= 0 {
-			setters[fn] = setter{bi, vi}
-			continue
-		}
-		out = append(out, c14Write{At: s, Val: s.Val, Base: fa.X})
+		out = append(out, c14Write{At: s, Val: s.Val, Base: s.Addr.(*ssa.FieldAddr).X})
 	}
-	if len(setters) > 0 {
-		for _, fn := range prodFuncs(w) {
-			for _, call := range an.Calls(fn) {
-				ci := w.Info(call)
-				st, ok := setters[ci.Static]
-				if !ok || ci.IsGo || ci.IsDefer {
-					continue
-				}
-				args := call.Common().Args
-				if st.base < len(args) && st.val < len(args) {
-					out = append(out, c14Write{At: call, Val: args[st.val], Base: args[st.base]})
-				}
-			}
+	return out
+}
+
+// c14Lift sees a write from the callers of its function: possible when the
+// struct is a parameter and the value a parameter or a constant. ok=false when
+// the write cannot be expressed in the callers' terms.
+func c14Lift(w *an.World, a c14Write) (lifted []c14Write, ok bool) {
+	fn := a.At.Parent()
+	bi, vi := c14ParamIdx(fn, a.Base), c14ParamIdx(fn, a.Val)
+	_, isConst := a.Val.(*ssa.Const)
+	if bi < 0 || (vi < 0 && !isConst) {
+		return nil, false
+	}
+	for _, call := range c14CallersOf(w, fn) {
+		args := call.Common().Args
+		if bi >= len(args) || vi >= len(args) {
+			continue
+		}
+		v := a.Val
+		if vi >= 0 {
+			v = args[vi]
+		}
+		lifted = append(lifted, c14Write{At: call, Val: v, Base: args[bi]})
+	}
+	return lifted, true
+}
+
+// c14Forms: a write and everything it lifts to (bounded).
+func c14Forms(w *an.World, a c14Write, depth int) []c14Write {
+	out := []c14Write{a}
+	if depth >= 3 {
+		return out
+	}
+	if l, ok := c14Lift(w, a); ok {
+		for _, x := range l {
+			out = append(out, c14Forms(w, x, depth+1)...)
 		}
 	}
 	return out
+}
+
+// c14Opaque: a value the rules do not look through (merge points, locals whose
+// address is taken, map/slice elements).
+func c14Opaque(v ssa.Value) bool {
+	switch x := v.(type) {
+	case *ssa.Phi, *ssa.Lookup, *ssa.Index:
+		return true
+	case *ssa.UnOp:
+		if x.Op == token.MUL {
+			_, isAlloc := x.X.(*ssa.Alloc)
+			return isAlloc
+		}
+	}
+	return false
 }
 
 func c14StructField(n *types.Named, name string) *types.Var {
@@ -860,31 +964,55 @@ func c14CoWrite(c *an.Check, root, data *types.Named) {
 		c.Note("C14.R4", "SwapData.FSMState", w.Pos(data.Obj().Pos()), "the record has no second state field any more: nothing to keep in step with SwapStateMachine.Current")
 		return
 	}
-	if !c.AtLeast("C14.R4", "write sites of SwapStateMachine.Current", len(cur), 1) {
+	if !c.AtLeast("C14.R4", "stores to SwapStateMachine.Current", len(cur), 1) {
 		return
 	}
-	// the record a SwapData write belongs to: root of the field chain SwapStateMachine.Data
-	machineOf := func(v ssa.Value) ssa.Value {
+	// the machine a write belongs to: the struct itself for Current, the root of
+	// the field chain SwapStateMachine.Data for a SwapData write
+	machineOf := func(v ssa.Value, isCur bool) ssa.Value {
+		if isCur {
+			return v
+		}
 		chain, r := w.FieldChain(v)
 		if chain == "SwapStateMachine.Data" {
 			return r
 		}
 		return nil
 	}
-	check := func(a c14Write, others []c14Write, aIsCur bool, what, other string) {
+	var curForms, fsmForms []c14Write
+	for _, a := range cur {
+		curForms = append(curForms, c14Forms(w, a, 0)...)
+	}
+	for _, a := range fsm {
+		fsmForms = append(fsmForms, c14Forms(w, a, 0)...)
+	}
+	// check decides one write (or one of its lifted forms); verdicts are reported
+	// on the function where the decision falls.
+	var check func(a c14Write, pool []c14Write, aIsCur bool, what, other string, depth int)
+	check = func(a c14Write, pool []c14Write, aIsCur bool, what, other string, depth int) {
 		fn := a.At.Parent()
 		cons := w.FuncName(fn) + " writes " + what
-		for _, b := range others {
-			if b.At.Parent() != fn || !c14SameValue(a.Val, b.Val) {
+		ma := machineOf(a.Base, aIsCur)
+		sameFn, opaque := 0, false
+		for _, b := range pool {
+			if b.At.Parent() != fn {
 				continue
 			}
-			var ma, mb ssa.Value
-			if aIsCur {
-				ma, mb = a.Base, machineOf(b.Base)
-			} else {
-				ma, mb = machineOf(a.Base), b.Base
+			sameFn++
+			mb := machineOf(b.Base, !aIsCur)
+			if ma == nil || mb == nil {
+				continue // expressed in terms this level cannot relate: decided after lifting
 			}
-			if ma == nil || ma != mb {
+			if !c14SameValue(a.Val, b.Val) {
+				if c14Opaque(a.Val) || c14Opaque(b.Val) {
+					opaque = true
+				}
+				continue
+			}
+			if ma != mb {
+				if c14Opaque(ma) || c14Opaque(mb) {
+					opaque = true
+				}
 				continue
 			}
 			if c14Together(a.At, b.At) {
@@ -892,13 +1020,29 @@ func c14CoWrite(c *an.Check, root, data *types.Named) {
 				return
 			}
 		}
-		c.Bad("C14.R4", cons, w.Pos(a.At.Pos()), what+" is written without "+other+" being written with the same value for the same record on every path: the two state fields of the stored record diverge")
+		if depth < 3 {
+			if lifted, ok := c14Lift(w, a); ok {
+				if len(lifted) == 0 {
+					c.Note("C14.R4", cons, w.Pos(a.At.Pos()), "setter without production caller")
+				}
+				for _, l := range lifted {
+					check(l, pool, aIsCur, what, other, depth+1)
+				}
+				return
+			}
+		}
+		detail := what + " is written without " + other + " being written with the same value for the same record on every path: the two state fields of the stored record diverge"
+		if opaque && sameFn > 0 {
+			c.Unknown("C14.R4", cons, w.Pos(a.At.Pos()), "unsupported shape (value or record reaches the write through a merge or a local): cannot relate the write of "+what+" to a write of "+other)
+			return
+		}
+		c.Bad("C14.R4", cons, w.Pos(a.At.Pos()), detail)
 	}
 	for _, a := range cur {
-		check(a, fsm, true, "SwapStateMachine.Current", "SwapData.FSMState")
+		check(a, fsmForms, true, "SwapStateMachine.Current", "SwapData.FSMState", 0)
 	}
 	for _, a := range fsm {
-		check(a, cur, false, "SwapData.FSMState", "SwapStateMachine.Current")
+		check(a, curForms, false, "SwapData.FSMState", "SwapStateMachine.Current", 0)
 	}
 }
 
@@ -943,16 +1087,58 @@ func c14Store(c *an.Check, root, storeI *types.Named) {
 		return
 	}
 	rootPtr := types.NewPointer(root)
-	tMarshal, tUnmarshal, tPut, tKeyed, tBucket := 0, 0, 0, 0, 0
+	// vacuity floors count (implementation, swap.Store method) pairs that reach a
+	// site of the kind, so that sharing the code between methods changes nothing
+	reach := map[string]int{}
 	defer func() {
-		c.AtLeast("C14.R5", "json.Marshal sites in swap.Store implementations", tMarshal, 2)
-		c.AtLeast("C14.R5", "json.Unmarshal sites in swap.Store implementations", tUnmarshal, 3)
-		c.AtLeast("C14.R5", "Bucket.Put sites in swap.Store implementations", tPut, 2)
-		c.AtLeast("C14.R5", "keyed bucket accesses in swap.Store implementations", tKeyed, 4)
-		c.AtLeast("C14.R5", "Tx.Bucket sites in swap.Store implementations", tBucket, 6)
+		c.AtLeast("C14.R5", "swap.Store methods that reach json.Marshal", reach["marshal"], 1)
+		c.AtLeast("C14.R5", "swap.Store methods that reach json.Unmarshal", reach["unmarshal"], 3)
+		c.AtLeast("C14.R5", "swap.Store methods that reach Bucket.Put", reach["put"], 1)
+		c.AtLeast("C14.R5", "swap.Store methods that reach a keyed bucket access", reach["keyed"], 2)
+		c.AtLeast("C14.R5", "swap.Store methods that reach Tx.Bucket", reach["bucket"], 3)
 	}()
+	kindOf := func(ci an.CallInfo, nargs int) string {
+		switch {
+		case ci.Static == nil:
+			return ""
+		case ci.PkgPath == "encoding/json" && ci.Recv == nil && ci.Static.Name() == "Marshal":
+			return "marshal"
+		case ci.PkgPath == "encoding/json" && ci.Recv == nil && ci.Static.Name() == "Unmarshal":
+			return "unmarshal"
+		case c14IsBucketMethod(ci, "Put") && nargs == 3:
+			return "put"
+		case c14IsBucketMethod(ci, "Get") && nargs == 2:
+			return "get"
+		case c14IsBucketMethod(ci, "Delete") && nargs == 2:
+			return "delete"
+		case ci.Static.Name() == "Bucket" && ci.Recv != nil && ci.Recv.Obj().Name() == "Tx" && nargs == 2:
+			return "bucket"
+		}
+		return ""
+	}
 	for _, nt := range impls {
 		tname := nt.Obj().Name()
+		for i := 0; i < si.NumMethods(); i++ {
+			mf := w.Method(nt, si.Method(i).Name())
+			if mf == nil || mf.Blocks == nil {
+				continue
+			}
+			kinds := map[string]bool{}
+			for f := range c14Closure(w, mf) {
+				for _, call := range an.Calls(f) {
+					switch k := kindOf(w.Info(call), len(call.Common().Args)); k {
+					case "":
+					case "put", "get", "delete":
+						kinds[k], kinds["keyed"] = true, true
+					default:
+						kinds[k] = true
+					}
+				}
+			}
+			for k := range kinds {
+				reach[k]++
+			}
+		}
 		// all methods of the type and what they reach
 		fns := map[*ssa.Function]bool{}
 		for _, t := range []types.Type{nt, types.NewPointer(nt)} {
@@ -973,99 +1159,143 @@ func c14Store(c *an.Check, root, storeI *types.Named) {
 		}
 		sort.Slice(fl, func(i, j int) bool { return w.FuncName(fl[i]) < w.FuncName(fl[j]) })
 
-		nMarshal, nUnmarshal, nPut, nKeyed, nBucket := 0, 0, 0, 0, 0
+		nSites := 0
 		keyFns := map[string][]string{}
+		keyOpaque := false
 		buckets := map[string]bool{}
+		bucketOpaque := false
 		for _, fn := range fl {
 			fname := w.FuncName(fn)
 			for _, call := range an.Calls(fn) {
 				ci := w.Info(call)
-				if ci.Static == nil {
-					continue
-				}
 				args := call.Common().Args
-				switch {
-				case ci.PkgPath == "encoding/json" && ci.Recv == nil && ci.Static.Name() == "Marshal":
-					nMarshal++
+				kind := kindOf(ci, len(args))
+				if kind != "" {
+					nSites++
+				}
+				switch kind {
+				case "marshal":
 					t := c14IfaceArgType(args, 0)
 					c.Decide(t != nil && types.Identical(t, rootPtr), "C14.R5", fname+" json.Marshal", w.Pos(call.Pos()),
 						"encodes *SwapStateMachine", "the store encodes a "+c14TypeStr(t)+" instead of a pointer to the record root *SwapStateMachine (pointer-receiver codecs and the decoded type depend on it)")
-				case ci.PkgPath == "encoding/json" && ci.Recv == nil && ci.Static.Name() == "Unmarshal":
-					nUnmarshal++
+				case "unmarshal":
 					t := c14IfaceArgType(args, 1)
-					c.Decide(t != nil && types.Identical(t, rootPtr), "C14.R5", fname+" json.Unmarshal", w.Pos(call.Pos()),
-						"decodes into *SwapStateMachine", "the store decodes into a "+c14TypeStr(t)+" although it encodes *SwapStateMachine")
-				case c14IsBucketMethod(ci, "Put") && len(args) == 3:
-					nPut++
+					if c.Decide(t != nil && types.Identical(t, rootPtr), "C14.R5", fname+" json.Unmarshal", w.Pos(call.Pos()),
+						"decodes into *SwapStateMachine", "the store decodes into a "+c14TypeStr(t)+" although it encodes *SwapStateMachine") {
+						c14FreshTarget(c, fname+" json.Unmarshal target", call, args[1])
+					}
+				case "put":
 					cons := fname + " Bucket.Put"
 					// value: the marshalled record
-					vs := w.Sources(args[2], an.FlowOpts{})
-					var rec ssa.Value
-					okVal := len(vs.Leaves) > 0
+					vs := w.Sources(args[2], an.FlowOpts{IntoCallers: true})
+					var recs []ssa.Value
+					var wrong, opaque []string
 					for _, l := range vs.Leaves {
-						if l.Kind != "call" || l.Call == nil || l.Idx != 0 {
-							okVal = false
-							continue
+						if l.Kind == "call" && l.Call != nil && l.Idx == 0 {
+							li := w.Info(l.Call)
+							if li.PkgPath == "encoding/json" && li.Static != nil && li.Static.Name() == "Marshal" && li.Recv == nil {
+								if mi, ok := l.Call.Common().Args[0].(*ssa.MakeInterface); ok {
+									recs = append(recs, mi.X)
+								}
+								continue
+							}
 						}
-						li := w.Info(l.Call)
-						if li.PkgPath != "encoding/json" || li.Static == nil || li.Static.Name() != "Marshal" {
-							okVal = false
-							continue
-						}
-						if mi, ok := l.Call.Common().Args[0].(*ssa.MakeInterface); ok {
-							rec = mi.X
+						switch l.Kind {
+						case "param", "unknown", "freevar", "alloc", "global":
+							opaque = append(opaque, l.String())
+						default:
+							wrong = append(wrong, l.String())
 						}
 					}
-					if !okVal {
-						c.Bad("C14.R5", cons, w.Pos(call.Pos()), fmt.Sprintf("the stored value is not (only) the result of json.Marshal: %v", vs.Names()))
+					switch {
+					case len(wrong) > 0:
+						c.Bad("C14.R5", cons, w.Pos(call.Pos()), fmt.Sprintf("the stored value is not (only) the result of json.Marshal: %v", wrong))
+						continue
+					case len(opaque) > 0 || len(recs) == 0:
+						c.Unknown("C14.R5", cons, w.Pos(call.Pos()), fmt.Sprintf("cannot trace the stored value to json.Marshal: %v", vs.Names()))
 						continue
 					}
-					kf, leaves := c14Key(w, args[1])
-					keyFns[kf] = append(keyFns[kf], cons)
-					nKeyed++
-					okKey := len(leaves) > 0
+					kfs, leaves, kop := c14Key(w, args[1], 0)
+					for _, kf := range kfs {
+						keyFns[kf] = append(keyFns[kf], cons)
+					}
+					keyOpaque = keyOpaque || kop
+					okKey, leafOpaque := len(leaves) > 0, false
 					for _, l := range leaves {
 						if l.Kind != "field" || l.Name != "SwapStateMachine.SwapId" {
 							okKey = false
+							if l.Kind == "param" || l.Kind == "unknown" || l.Kind == "freevar" || l.Kind == "alloc" {
+								leafOpaque = true
+							}
 							continue
 						}
-						if _, r := w.FieldChain(l.Val); r != rec {
+						_, r := w.FieldChain(l.Val)
+						same := false
+						for _, rec := range recs {
+							if r == rec {
+								same = true
+							}
+						}
+						if !same {
 							okKey = false
+							if c14Opaque(r) {
+								leafOpaque = true
+							}
 						}
 					}
-					c.Decide(okKey, "C14.R5", cons, w.Pos(call.Pos()), "value = json.Marshal(record), key = "+kf+"(record.SwapId)",
-						fmt.Sprintf("the key of the written record does not derive only from SwapStateMachine.SwapId of the record that is marshalled: %v", c14LeafNames(leaves)))
-				case (c14IsBucketMethod(ci, "Get") || c14IsBucketMethod(ci, "Delete")) && len(args) == 2:
-					nKeyed++
-					kf, _ := c14Key(w, args[1])
-					keyFns[kf] = append(keyFns[kf], fname+" Bucket."+ci.Static.Name())
-				case ci.Static.Name() == "Bucket" && ci.Recv != nil && ci.Recv.Obj().Name() == "Tx" && len(args) == 2:
-					nBucket++
-					for _, nm := range w.Sources(args[1], an.FlowOpts{}).Names() {
-						buckets[nm] = true
+					switch {
+					case okKey:
+						c.OK("C14.R5", cons, w.Pos(call.Pos()), "value = json.Marshal(record), key = "+strings.Join(kfs, "|")+"(record.SwapId)")
+					case kop || leafOpaque:
+						c.Unknown("C14.R5", cons, w.Pos(call.Pos()), fmt.Sprintf("cannot trace the key of the written record: %v", c14LeafNames(leaves)))
+					default:
+						c.Bad("C14.R5", cons, w.Pos(call.Pos()), fmt.Sprintf("the key of the written record does not derive only from SwapStateMachine.SwapId of the record that is marshalled: %v", c14LeafNames(leaves)))
+					}
+				case "get", "delete":
+					kfs, _, kop := c14Key(w, args[1], 0)
+					for _, kf := range kfs {
+						keyFns[kf] = append(keyFns[kf], fname+" Bucket."+ci.Static.Name())
+					}
+					keyOpaque = keyOpaque || kop
+				case "bucket":
+					for _, l := range w.Sources(args[1], an.FlowOpts{IntoCallers: true}).Leaves {
+						if l.Kind == "param" || l.Kind == "unknown" || l.Kind == "freevar" {
+							bucketOpaque = true
+							continue
+						}
+						buckets[l.String()] = true
 					}
 				}
 			}
 		}
 		pos := w.Pos(nt.Obj().Pos())
-		tMarshal, tUnmarshal, tPut, tKeyed, tBucket = tMarshal+nMarshal, tUnmarshal+nUnmarshal, tPut+nPut, tKeyed+nKeyed, tBucket+nBucket
-		if nMarshal+nUnmarshal+nPut+nKeyed+nBucket == 0 {
+		if nSites == 0 {
 			c.Note("C14.R5", tname, pos, "implements swap.Store without JSON or bucket access (not a persistent store): nothing to check")
 			continue
 		}
-		if len(keyFns) == 1 {
+		switch {
+		case len(keyFns) > 1:
+			var parts []string
+			for _, k := range sortedKeysOfSlices(keyFns) {
+				parts = append(parts, k+" in "+strings.Join(c14Uniq(keyFns[k]), ", "))
+			}
+			c.Bad("C14.R5", tname+" key function", pos, "bucket keys are derived differently, so a record written under one key is looked up under another: "+strings.Join(parts, " | "))
+		case keyOpaque || len(keyFns) == 0:
+			c.Unknown("C14.R5", tname+" key function", pos, "cannot trace every bucket key to the function that produced it")
+		default:
 			for k, v := range keyFns {
 				c.Decide(strings.HasPrefix(k, "func:"), "C14.R5", tname+" key function", pos, fmt.Sprintf("all %d keyed accesses derive the key with %s", len(v), k), "bucket keys are not produced by a key function: "+k)
 			}
-		} else {
-			var parts []string
-			for _, k := range sortedKeysOfSlices(keyFns) {
-				parts = append(parts, k+" in "+strings.Join(keyFns[k], ", "))
-			}
-			c.Bad("C14.R5", tname+" key function", pos, "bucket keys are derived differently, so a record written under one key is looked up under another: "+strings.Join(parts, " | "))
 		}
 		bl := sortedKeys(buckets)
-		c.Decide(len(bl) == 1 && strings.HasPrefix(bl[0], "global:"), "C14.R5", tname+" bucket", pos, "one bucket: "+strings.Join(bl, ","), "store methods use different bucket names: "+strings.Join(bl, ", "))
+		switch {
+		case len(bl) > 1:
+			c.Bad("C14.R5", tname+" bucket", pos, "store methods use different bucket names: "+strings.Join(bl, ", "))
+		case bucketOpaque || len(bl) == 0:
+			c.Unknown("C14.R5", tname+" bucket", pos, "cannot trace every bucket name")
+		default:
+			c.OK("C14.R5", tname+" bucket", pos, "one bucket: "+bl[0])
+		}
 	}
 }
 
@@ -1083,31 +1313,68 @@ func c14IfaceArgType(args []ssa.Value, i int) types.Type {
 	return args[i].Type()
 }
 
-// c14Key names the function that produced a bucket key and returns the sources
-// of that function's argument, looking through Stringer-like calls on SwapId.
-func c14Key(w *an.World, key ssa.Value) (string, []an.Src) {
-	call, ok := key.(*ssa.Call)
-	if !ok {
-		ss := w.Sources(key, an.FlowOpts{})
-		return "direct:" + strings.Join(ss.Names(), "+"), ss.Leaves
+// c14Key names the function(s) that produced a bucket key and returns the sources
+// of that function's argument, looking through Stringer-like calls on SwapId and,
+// for a key that is a parameter, through the production callers. opaque: some
+// form of the key could not be interpreted.
+func c14Key(w *an.World, key ssa.Value, depth int) (kfs []string, leaves []an.Src, opaque bool) {
+	for {
+		if ct, ok := key.(*ssa.ChangeType); ok {
+			key = ct.X
+			continue
+		}
+		break
 	}
-	ci := w.Info(call)
-	through := map[string]bool{ci.Name: true}
-	// (*SwapId).String / fmt-less stringers: methods without parameters returning string
-	var leaves []an.Src
-	ss := w.Sources(key, an.FlowOpts{ThroughCalls: through})
-	for _, l := range ss.Leaves {
-		if l.Kind == "call" && l.Call != nil {
-			li := w.Info(l.Call)
-			if li.Static != nil && li.Recv != nil && li.Static.Signature.Params().Len() == 0 && len(l.Call.Common().Args) == 1 {
-				sub := w.Sources(l.Call.Common().Args[0], an.FlowOpts{})
-				leaves = append(leaves, sub.Leaves...)
-				continue
+	add := func(k []string, l []an.Src, o bool) {
+		kfs = append(kfs, k...)
+		leaves = append(leaves, l...)
+		opaque = opaque || o
+	}
+	switch x := key.(type) {
+	case *ssa.Call:
+		ci := w.Info(x)
+		through := map[string]bool{ci.Name: true}
+		ss := w.Sources(key, an.FlowOpts{ThroughCalls: through})
+		for _, l := range ss.Leaves {
+			if l.Kind == "call" && l.Call != nil {
+				li := w.Info(l.Call)
+				// (*SwapId).String-like: method without parameters
+				if li.Static != nil && li.Recv != nil && li.Static.Signature.Params().Len() == 0 && len(l.Call.Common().Args) == 1 {
+					sub := w.Sources(l.Call.Common().Args[0], an.FlowOpts{})
+					leaves = append(leaves, sub.Leaves...)
+					continue
+				}
+			}
+			leaves = append(leaves, l)
+		}
+		kfs = []string{ci.Name}
+	case *ssa.Parameter:
+		fn := x.Parent()
+		i := c14ParamIdx(fn, x)
+		callers := c14CallersOf(w, fn)
+		if depth >= 3 || i < 0 || len(callers) == 0 {
+			return nil, nil, true
+		}
+		for _, call := range callers {
+			if i < len(call.Common().Args) {
+				add(c14Key(w, call.Common().Args[i], depth+1))
 			}
 		}
-		leaves = append(leaves, l)
+	case *ssa.Phi:
+		if depth >= 3 {
+			return nil, nil, true
+		}
+		for _, e := range x.Edges {
+			add(c14Key(w, e, depth+1))
+		}
+	case *ssa.Convert, *ssa.Slice, *ssa.Const, *ssa.MakeSlice:
+		ss := w.Sources(key, an.FlowOpts{})
+		return []string{"direct:" + strings.Join(ss.Names(), "+")}, ss.Leaves, false
+	default:
+		return nil, nil, true
 	}
-	return ci.Name, leaves
+	sort.Strings(kfs)
+	return c14Uniq(kfs), leaves, opaque
 }
 
 func c14LeafNames(ls []an.Src) []string {
@@ -1239,4 +1506,206 @@ func c14ReachesReturnAvoiding(from ssa.Instruction, via []ssa.Instruction, cut m
 		}
 	}
 	return false
+}
+
+// ---- R6 ------------------------------------------------------------------------
+
+// c14PerRecordCallback: fn is a closure handed to bbolt's (*Bucket).ForEach,
+// which calls it once per stored record.
+func c14PerRecordCallback(w *an.World, fn *ssa.Function) bool {
+	par := fn.Parent()
+	if par == nil {
+		return false
+	}
+	for _, call := range an.Calls(par) {
+		ci := w.Info(call)
+		if ci.Static == nil || ci.Static.Name() != "ForEach" || ci.Recv == nil || ci.Recv.Obj().Name() != "Bucket" || !strings.HasSuffix(ci.PkgPath, "bbolt") {
+			continue
+		}
+		for _, a := range call.Common().Args {
+			if mc, ok := a.(*ssa.MakeClosure); ok && mc.Fn == fn {
+				return true
+			}
+		}
+	}
+	return false
+}
+
+// c14Reexecuted: some path leads from just after `at` back to `at` without
+// executing one of fresh (the points where a new target is allocated).
+func c14Reexecuted(at ssa.Instruction, fresh []ssa.Instruction) bool {
+	ab, ai := at.Block(), an.InstrIndex(at)
+	stop := map[*ssa.BasicBlock]bool{}
+	for _, f := range fresh {
+		if f.Block() == ab {
+			if an.InstrIndex(f) < ai {
+				return false // re-allocated right before every execution
+			}
+			continue
+		}
+		stop[f.Block()] = true
+	}
+	reach := an.ReachBlocks(ab.Succs, nil, stop)
+	return reach[ab] && !stop[ab]
+}
+
+// c14FreshTarget decides that the value json.Unmarshal decodes a stored record
+// into is a new allocation for every decoded record. encoding/json leaves fields
+// that are absent from the input (omitempty!) untouched, so a target that still
+// holds the previous record makes a record reload with another swap's data.
+func c14FreshTarget(c *an.Check, cons string, call ssa.CallInstruction, target ssa.Value) {
+	w := c.W
+	verdict, why := c14TargetVerdict(w, call, target, 0)
+	pos := w.Pos(call.Pos())
+	switch verdict {
+	case "ok":
+		c.OK("C14.R6", cons, pos, why)
+	case "bad":
+		c.Bad("C14.R6", cons, pos, why+": fields that are absent from a stored record (omitempty, older versions) keep the values of the record decoded before, so a swap reloads with another swap's data")
+	default:
+		c.Unknown("C14.R6", cons, pos, "cannot decide whether the decode target is a fresh value per record: "+why)
+	}
+}
+
+func c14TargetVerdict(w *an.World, at ssa.CallInstruction, target ssa.Value, depth int) (string, string) {
+	for {
+		switch x := target.(type) {
+		case *ssa.MakeInterface:
+			target = x.X
+			continue
+		case *ssa.ChangeType:
+			target = x.X
+			continue
+		}
+		break
+	}
+	fn := at.Parent()
+	isNew := func(v ssa.Value) (ssa.Instruction, bool) {
+		switch x := v.(type) {
+		case *ssa.Alloc:
+			return x, true
+		case *ssa.Call:
+			// constructor: in-module static callee all of whose results #0 are allocations
+			cal := x.Common().StaticCallee()
+			if cal == nil || cal.Blocks == nil || !w.InModule(cal) {
+				return nil, false
+			}
+			rets := an.Returns(cal)
+			for _, r := range rets {
+				if len(r.Results) == 0 {
+					return nil, false
+				}
+				if _, ok := r.Results[0].(*ssa.Alloc); !ok {
+					return nil, false
+				}
+			}
+			return x, len(rets) > 0
+		}
+		return nil, false
+	}
+	if in, ok := isNew(target); ok {
+		if in.Parent() != fn {
+			return "unknown", "target allocated in another function"
+		}
+		if c14Reexecuted(at, []ssa.Instruction{in}) {
+			return "bad", "the decode is executed again (loop) with the target allocated once, outside the iteration"
+		}
+		return "ok", "decodes into a value allocated for this decode"
+	}
+	switch x := target.(type) {
+	case *ssa.Parameter:
+		i := c14ParamIdx(fn, x)
+		callers := c14CallersOf(w, fn)
+		if depth >= 3 || i < 0 || len(callers) == 0 {
+			return "unknown", "the target is a parameter of " + w.FuncName(fn) + " without resolvable production callers"
+		}
+		worst, wwhy := "ok", "every caller of "+w.FuncName(fn)+" passes a value allocated for the decode"
+		for _, call := range callers {
+			if i >= len(call.Common().Args) {
+				continue
+			}
+			v, y := c14TargetVerdict(w, call, call.Common().Args[i], depth+1)
+			if v == "bad" || (v == "unknown" && worst == "ok") {
+				worst, wwhy = v, y+" (caller "+w.FuncName(call.Parent())+")"
+			}
+		}
+		return worst, wwhy
+	case *ssa.Phi:
+		// a target merged at a loop head: carried over when the phi feeds itself
+		seen := map[ssa.Value]bool{}
+		var fresh []ssa.Instruction
+		self, other := false, false
+		var walk func(v ssa.Value, top bool)
+		walk = func(v ssa.Value, top bool) {
+			if p, ok := v.(*ssa.Phi); ok {
+				if p == x && !top {
+					self = true
+					return
+				}
+				if seen[p] {
+					return
+				}
+				seen[p] = true
+				for _, e := range p.Edges {
+					walk(e, false)
+				}
+				return
+			}
+			if in, ok := isNew(v); ok && in.Parent() == fn {
+				fresh = append(fresh, in)
+				return
+			}
+			other = true
+		}
+		walk(x, true)
+		switch {
+		case other:
+			return "unknown", "the target is a merge of values that are not all local allocations"
+		case self || c14Reexecuted(at, fresh):
+			return "bad", "the same target value is carried from one loop iteration to the next (it is only sometimes re-allocated)"
+		}
+		return "ok", "every merged target is allocated for this decode"
+	case *ssa.FreeVar:
+		if c14PerRecordCallback(w, fn) {
+			return "bad", "the per-record callback of Bucket.ForEach decodes every record into one value captured from the enclosing function"
+		}
+		return "unknown", "the target is captured from the enclosing function"
+	case *ssa.UnOp:
+		if x.Op != token.MUL {
+			break
+		}
+		// loaded from a variable cell (local whose address is taken, or a captured variable)
+		cell := x.X
+		var via []ssa.Instruction
+		opaqueStore := false
+		if refs := cell.Referrers(); refs != nil {
+			for _, r := range *refs {
+				if st, ok := r.(*ssa.Store); ok && st.Addr == cell && st.Parent() == fn {
+					if _, ok := isNew(st.Val); ok {
+						via = append(via, st)
+					} else {
+						opaqueStore = true
+					}
+				}
+			}
+		}
+		if opaqueStore {
+			return "unknown", "the variable holding the target is assigned values that are not local allocations"
+		}
+		_, captured := cell.(*ssa.FreeVar)
+		if an.MustPassInstr(at, via) && !c14Reexecuted(at, via) {
+			return "ok", "the variable holding the target is re-allocated before every decode"
+		}
+		if captured {
+			if c14PerRecordCallback(w, fn) {
+				return "bad", "the per-record callback of Bucket.ForEach decodes into a variable of the enclosing function that is not re-allocated before every decode (the value of the previous record is reused)"
+			}
+			return "unknown", "the target lives in a variable captured from the enclosing function"
+		}
+		if _, isAlloc := cell.(*ssa.Alloc); isAlloc && len(via) > 0 && c14Reexecuted(at, via) && an.MustPassInstr(at, via) {
+			return "bad", "the decode is executed again (loop) without re-allocating the variable that holds the target"
+		}
+		return "unknown", "the target is loaded from " + w.Term(cell)
+	}
+	return "unknown", "target of shape " + fmt.Sprintf("%T", target)
 }
